@@ -30,7 +30,7 @@ NoConflictingPair == \A m, n \in Ms : (m # n /\ Done(m) /\ Done(n)) => ~C!Confli
 AssumeHolds == C!Assume(cfg, st, Calls, In)
 \* ---- stage B: data
 ResultMatches ==
-  \A m \in DOMAIN Calls : LET r == C!Result(cfg, st, m, Calls, In) IN r = -1 \/ Line[m].out = r
+  \A m \in DOMAIN Calls : C!ResAny(cfg, st, m) \/ Line[m].out = C!Result(cfg, st, m, Calls, In, Line.pub)
 ObsMatches == Line.pub \in C!ObsSet(cfg, st, Calls, In)
 \* ---- stage C: the property's sentences on the observed step, and the history property
 Nx == C!CNext(cfg, st, Calls, In, Line.pub)
